@@ -14,6 +14,17 @@ CHECKS = {
              "hand-written (modelled, not verified Rust). No axioms.",
         technique="Coq proof (induction, finite sweeps by vm_compute) + differential correspondence model vs code",
         design="2/C07"),
+    "C16": dict(
+        text="Coq theorems over an executable mirror of BDecoder (iterator-on-suffix, fuelled, Panic/OutOfFuel as explicit "
+             "outcomes): totality for every byte string, completeness w.r.t. an independent inductive grammar, the strict "
+             "decoder is exactly the grammar, and soundness of the code's decoder outside the known-finding class "
+             "`unterminated-container` (the full statement is refuted by 'li1e', proved as C16_refuted_unterminated). "
+             "Tie: exhaustive comparison over the alphabet '012:-ilde' up to length 5 (quick) / 7 (thorough) plus "
+             "mutated documents, oracle = the proved-equivalent strict recogniser applied to the implementation's answer.",
+        note="Partial: soundness only outside the recorded known finding. Not modelled: native stack exhaustion on deep "
+             "nesting. Trusted: Coq kernel, correspondence harness, hand-written model. No axioms.",
+        technique="Coq proof (mutual induction over grammar / fuel) + exhaustive small-scope and random differential correspondence",
+        design="2/C16"),
 }
 
 NOT_APPLICABLE = {}
